@@ -228,6 +228,8 @@ def jobs(tier, seed):
     js += interrupt_jobs(len(INTERRUPT_X))
     from vf.runner import concur_jobs
     js += concur_jobs(len(CONCUR_SCEN))
+    # the two reward schedules side by side from a cold image, <= 2 preemptions (deep pass): process-wide "current network" state
+    js.append({"name": "concurrent-deep/0", "part": "concurcase", "idx": len(CONCUR_SCEN), "curve": None, "deep": True, "weight": 10})
     return js
 
 
@@ -235,7 +237,7 @@ def run_job(job):
     if job["part"] == "concurcase":
         from vf.runner import run_concur_job
         ops = seq_ops(dict(job, shard=[0, 1]))
-        scens = [{"threads": [ops[i] for i in sc[0]], "warm": [ops[i] for i in sc[1]], "post": [ops[i] for i in (sc[2] if len(sc) > 2 else ())]} for sc in CONCUR_SCEN]
+        scens = [{"threads": [ops[i] for i in sc[0]], "warm": [ops[i] for i in sc[1]], "post": [ops[i] for i in (sc[2] if len(sc) > 2 else ())]} for sc in CONCUR_SCEN + [((8, 9), ())]]
         return run_concur_job(job, scens, run_case, PROPERTY, CONCUR_FILES, alphabet=ops)
     if job["part"] == "longhist":
         from vf.runner import run_long_job, default_long_ops
